@@ -427,6 +427,76 @@ impl<'c, 'd> Parser<'c, 'd> {
 
 include!("autogen_parse_operand.rs");
 
+/// Verification hooks (compiled only under `cfg(kani)` / `--cfg rspirv_verif`): thin wrappers that
+/// build a `Parser` and call one private method unchanged.
+#[cfg(any(kani, rspirv_verif))]
+pub mod verif {
+    use super::*;
+
+    pub fn parse_header(binary: &[u8], consumer: &mut dyn Consumer) -> Result<dr::ModuleHeader> {
+        Parser::new(binary, consumer).parse_header()
+    }
+
+    /// Parses one instruction starting at byte 0 of `binary`; also returns the decoder offset,
+    /// the instruction index and whether a limit is still set afterwards.
+    pub fn parse_inst(
+        binary: &[u8],
+        consumer: &mut dyn Consumer,
+        inst_index: usize,
+    ) -> (Result<dr::Instruction>, usize, usize, bool) {
+        let mut p = Parser::new(binary, consumer);
+        p.inst_index = inst_index;
+        let r = p.parse_inst();
+        (r, p.decoder.offset(), p.inst_index, p.decoder.has_limit())
+    }
+
+    /// Runs the quantifier loop over `grammar` with `limit` operand words available.
+    pub fn parse_operands(
+        binary: &[u8],
+        consumer: &mut dyn Consumer,
+        limit: usize,
+        grammar: &'static grammar::Instruction<'static>,
+    ) -> (Result<dr::Instruction>, usize, bool) {
+        let mut p = Parser::new(binary, consumer);
+        p.decoder.set_limit(limit);
+        let r = p.parse_operands(grammar);
+        (r, p.decoder.offset(), p.decoder.limit_reached())
+    }
+
+    /// Decodes one context-dependent literal whose type id 1 is tracked as given
+    /// (`None`: unknown type; `Some((is_float, width, signed))`).
+    pub fn parse_literal(
+        binary: &[u8],
+        consumer: &mut dyn Consumer,
+        tracked: Option<(bool, u32, bool)>,
+    ) -> (Result<dr::Operand>, usize) {
+        let mut p = Parser::new(binary, consumer);
+        if let Some((is_float, width, signed)) = tracked {
+            let ty = if is_float {
+                dr::Instruction::new(
+                    spirv::Op::TypeFloat,
+                    None,
+                    Some(1),
+                    vec![dr::Operand::LiteralBit32(width)],
+                )
+            } else {
+                dr::Instruction::new(
+                    spirv::Op::TypeInt,
+                    None,
+                    Some(1),
+                    vec![
+                        dr::Operand::LiteralBit32(width),
+                        dr::Operand::LiteralBit32(signed as u32),
+                    ],
+                )
+            };
+            p.type_tracker.track(&ty);
+        }
+        let r = p.parse_literal(1);
+        (r, p.decoder.offset())
+    }
+}
+
 #[cfg(test)]
 mod tests {
     use assert_matches::assert_matches;
